@@ -12,6 +12,9 @@ META = {
     "C02": {"ref": "DESIGN.md §8 C02",
             "text": "Four solver-decided obligations: (A) recursion accounting as an inductive argument — an engine-side monitor asserts, for every *Parser method re-entered while an activation of it is live, that p.depth strictly increased (start depth and token continuation symbolic), so every cycle reachable within the bound pays into the depth counter; (B) the depth limit is exact for every current depth 0..200 (symbolic); (C) the byte limit is exact for every input length 0..32 MiB (symbolic length, content never read; boundary 10 MiB decided by the solver); (D) the token limit is exact on the source instantiated at MaxTokens=2.",
             "note": "A is bounded by continuation length and the listed contexts; its violations are engine-side (no native observable for 're-entered without accounting'), all other counterexamples are replayed natively (10 MiB+1 inputs, instantiated source). D relies on the stated data-independence of the constant."},
+    "C03": {"ref": "DESIGN.md §8 C03",
+            "text": "Differential symbolic execution: the real parser and a reference precedence-climbing parser (written from the documented ladder) run on the same symbolic token window; for every path on which the reference accepts, the solver discharges 'real accepts' and node-by-node equality of the trees (operators, operands, NOT flags, IN lists, BETWEEN bounds). Clause templates with symbolic presence bits, names and numbers assert that every written clause/modifier/value is in the tree and nothing unwritten is; set-operation chains assert left-associativity and per-operator ALL flags.",
+            "note": "Bounded by window length and the template family; the reference parser is the trusted statement of the grammar."},
     "C13": {"ref": "DESIGN.md §8 C13",
             "text": "On every error-returning path of the C01 runs the solver discharges: errors.As reaches *errors.Error (the real Unwrap chains are executed), the code belongs to the right family (E1xxx from Tokenize, E2xxx from the parser), the message is non-empty and a set location lies within the input.",
             "note": "Same bounds as C01; message wording and hints are executed but not asserted on."},
